@@ -13,7 +13,7 @@ import alignchk as ac
 from align import Inst
 from common import rng_for, run_model, coq_eval, w_list, w_tuple, frac, close, TAU2
 
-RULE = ("continua from VERIF_SEED (2..4 annotators, 1..5 units each, patterns incl. nested / long overlapping / intgrid, empty annotators, plus the "
+RULE = ("continua from VERIF_SEED (2..4 annotators, 1..5 units each, patterns incl. nested / long overlapping / intgrid / containers (a long unit holding later units of its annotator) / timelines below zero, empty annotators, plus the "
         "non-termination witness of the unrepaired loop) x window sizes 1..ceil(units/annotators)+1 x dissimilarities; per-iteration trace "
         "validation against the model; non-trivial = at least two iterations, or an iteration where no unitary alignment ended before the limit "
         "(repaired choice used); distinct by (units, dissimilarity, window size)")
@@ -129,7 +129,28 @@ def run(rep, tier, seed, pa):
             c["pattern"] = rng.choice(["nested", "intgrid", "random"])
             n = len(c["units"])
             c["units"] = gen.gen_units(rng, n, [max(1, len(u)) for u in c["units"]], c["pattern"], gen.LABEL_SETS[c["labelset"]], c["unlabelled"])
+    # containers: the unit that ends last is a long one holding later-starting units of its own annotator, the other annotators' units lie
+    # elsewhere (the window head then contains the last-ending unit long before the last window)
+    for k in range(8 if tier == "quick" else 60):
+        n = rng.choice([2, 2, 3])
+        L = rng.choice([64.0, 100.0, 200.0])
+        inner = sorted(rng.sample(range(int(L * 0.6), int(L) - 2), rng.randrange(2, 5)))
+        units = [[(0.0, L, "A")] + [(float(x), float(x) + 1.0, rng.choice(["A", "B"])) for x in inner]]
+        for a in range(1, n):
+            st = sorted(rng.sample(range(2, int(L * 0.75)), rng.randrange(1, 3)))
+            units.append([(float(x), float(x) + 2.0, rng.choice(["A", "B"])) for x in st])
+        rng.shuffle(units)
+        cases.append({"units": [sorted(u) for u in units], "spec": rng.choice([("pos", 1.0), ("comb", 1.0, 1.0, 1.0, "abs", "abc", "asis")]),
+                      "pattern": "containers", "unlabelled": False})
+    # timelines below zero (bounds that start from 0.0 are wrong there)
+    for c in cases:
+        if rng.random() < 0.2 and sum(len(u) for u in c["units"]):
+            off = max(e for us in c["units"] for (_, e, _) in us) + rng.choice([0.0, 8.0])
+            c["units"] = [[(s - off, e - off, l) for (s, e, l) in us] for us in c["units"]]
+            c["pattern"] += "-negative"
     cases.insert(0, {"units": WITNESS, "spec": ("comb", 1.0, 1.0, 1.0, "abs", "abc", "asis"), "pattern": "witness", "unlabelled": False})
+    cases.insert(1, {"units": [[(0.0, 100.0, "A"), (80.0, 81.0, "A"), (90.0, 91.0, "A"), (95.0, 96.0, "A")], [(70.0, 72.0, "A")]],
+                     "spec": ("pos", 1.0), "pattern": "containers", "unlabelled": False})
     jobs = []
     for case in cases:
         n = len(case["units"])
